@@ -262,7 +262,7 @@ def scan (σ : Sym) : Step → Option Sym
   | .rename .final _ => none
   | .fsyncDir _ => some { σ with pending := false }
   | .remove .tmp => some { σ with tmpBound := false, dirty := false }
-  | .remove .final => some { σ with pending := false }
+  | .remove .final => none   -- a publishing function never unlinks the final name (it is replaced by rename only)
   | .ok => if σ.pending then none else some σ
 
 def scanAll (σ : Sym) : List Step → Option Sym
@@ -275,7 +275,7 @@ def wellOrderedB (ss : List Step) : Bool := (scanAll ⟨false, false, false⟩ s
 
 /-- A static step list is well ordered: every `rename tmp → final` finds the staging file written,
     flushed after its last write, and the directory is flushed before `ok`; nothing touches the final
-    name directly. -/
+    name directly and the final name is never unlinked (an existing file is replaced by the rename). -/
 def WellOrdered (p : Protocol) : Prop := wellOrderedB p.steps = true
 
 instance (p : Protocol) : Decidable (WellOrdered p) := by unfold WellOrdered; exact inferInstance
